@@ -63,6 +63,18 @@ def row_case(args):
             fv = SymNum.of(f) if isinstance(f, float) else f
             foreign.append((repr(f), it.truth(it.compare("==", a, fv)), it.truth(it.compare("!=", a, fv)),
                             it.truth(it.compare("==", fv, a))))
+        # look-alikes: objects of a caller's own class that merely has the same NAME as a's class
+        # (bare, e.g. the standard library's ast.Add(), or carrying the same fields)
+        from ..interp import InterpRaise
+        from ..objengine import impostor
+        for what, attrs in (("bare", {}), ("with the same fields", dict(a.attrs))):
+            imp = impostor(it, a.cls.name, attrs)
+            desc = f"<an object of a foreign class also named {a.cls.name}, {what}>"
+            try:
+                foreign.append((desc, it.truth(it.compare("==", a, imp)), it.truth(it.compare("!=", a, imp)),
+                                it.truth(it.compare("==", imp, a))))
+            except InterpRaise as r:
+                foreign.append((desc + f" raised {exc_name(r.exc)}", True, False, True))
         # a used copy (evaluated, differentiated, simplified) must stay equal with an equal hash
         used = None
         if a_item[0] == "expr":
@@ -210,7 +222,12 @@ def check(rep):
             bad_kinds.add(kind_of(a))
         for (f, eq, ne, req) in r["foreign"]:
             pairs += 1
-            if eq or req or not ne:
+            if " raised " in f:
+                rep.violation("C12.foreign", construct, "",
+                              f"{describe(a)} compared with {f.replace(' raised ', ': the comparison raised ')} "
+                              f"(equality must never raise on foreign objects)", witness_class=f"foreign {kind_of(a)}")
+                bad_kinds.add(kind_of(a))
+            elif eq or req or not ne:
                 rep.violation("C12.foreign", construct, "",
                               f"{describe(a)} compared with the foreign object {f}: == {eq}, reflected == {req}, != {ne}",
                               witness_class=f"foreign {kind_of(a)}")
